@@ -63,8 +63,10 @@ def _(c):
 
 CM = "self.local_peer.chain_manager"
 STORE = "G.store()"
+SAME_POOL = ("(all(G.member(pool0[j], %s.transaction_pool) for j in range(len(pool0)))"
+             " and all(G.member(%s.transaction_pool[k], pool0) for k in range(len(%s.transaction_pool))))" % (CM, CM, CM))
 UNCHANGED = ["same(%s.coinstate, prior)" % CM,
-             "same(%s.transaction_pool, pool0)" % CM,
+             SAME_POOL,         # the same pending transactions (the eviction filter re-run on an unchanged head keeps all)
              "same(%s.write_buffer, buffer0)" % STORE,
              "same(%s.disk, disk0)" % STORE,
              "same(GS.relayed_blocks, relayed0)",
@@ -84,7 +86,8 @@ def _(c):
     c.requires("header.in_response_to == 0",
                "lkv0 is not None and same(lkv0, prior)",
                "len(buffer0) == 0",
-               "prior.current_chain_hash is not None and prior.current_chain_hash in prior.block_by_hash",
+               "prior.current_chain_hash is not None and len(prior.current_chain_hash) == 32"
+               " and prior.current_chain_hash in prior.block_by_hash",
                POOL_VALID % {'pool': 'pool0', 'cs': 'prior'},
                POOL_DISTINCT % {'pool': 'pool0'})
     new_state = "prior.add_block_no_validation(block)"
